@@ -54,6 +54,13 @@ class Ayns:
         self.obj = obj
 
 
+class ObjDict:
+    """the __dict__ of an abstract object"""
+
+    def __init__(self, obj):
+        self.obj = obj
+
+
 class Bound:
     def __init__(self, recv, fi, name, via_ayns):
         self.recv, self.fi, self.name, self.via_ayns = recv, fi, name, via_ayns
@@ -156,6 +163,13 @@ class FDE:
                 self._ev(s.value, env, fi)
             elif isinstance(s, ast.Pass):
                 pass
+            elif isinstance(s, (ast.ImportFrom, ast.Import)):
+                for a in s.names:
+                    nm = a.asname or a.name.split('.')[0]
+                    if nm in self.repo.classes:
+                        env[nm] = ('class', nm)
+                    else:
+                        env[nm] = Opaque('module ' + nm)
             elif isinstance(s, ast.For):
                 it = self._ev(s.iter, env, fi)
                 if not isinstance(it, (list, tuple)):
@@ -238,7 +252,14 @@ class FDE:
             t = self.repo.resolve(base.cls, attr)
             if t is not None:
                 return Bound(base, t, attr, False)
+            if attr == '__dict__':
+                return ObjDict(base)
+            mro = self.repo.mro(base.cls)
+            if attr in ('values', 'items', 'keys', 'copy', 'index', 'count') and ('dict' in mro or 'list' in mro):
+                return ('builtinmethod', base, attr)
             raise Unsupported('field %s of %r (%s) not modelled' % (attr, base, base.cls))
+        if isinstance(base, ObjDict) and attr in ('update', 'copy'):
+            return ('objdictmethod', base, attr)
         if isinstance(base, dict) and attr in ('get', 'items', 'keys', 'values', 'pop', 'update', 'setdefault'):
             return ('dictmethod', base, attr)
         raise Unsupported('attribute %s of %r' % (attr, base))
@@ -252,6 +273,8 @@ class FDE:
             if e.id in ('True', 'False', 'None'):
                 return {'True': True, 'False': False, 'None': None}[e.id]
             if e.id in self.repo.classes:
+                return ('class', e.id)
+            if e.id in ('list', 'dict', 'tuple', 'str', 'int'):
                 return ('class', e.id)
             raise Unsupported('free name %s in %s' % (e.id, fi.qualname if fi else '?'))
         if isinstance(e, ast.Attribute):
@@ -349,6 +372,10 @@ class FDE:
         raise Unsupported('expression %s: %s' % (type(e).__name__, unparse(e)))
 
     def _cmp(self, op, a, b):
+        def isclass(x):
+            return isinstance(x, tuple) and len(x) == 2 and x[0] == 'class'
+        if isinstance(op, (ast.Is, ast.IsNot)) and isclass(a) and isclass(b):
+            return (a == b) if isinstance(op, ast.Is) else (a != b)
         if isinstance(op, ast.Is):
             return a is b
         if isinstance(op, ast.IsNot):
@@ -413,6 +440,12 @@ class FDE:
                 if isinstance(o, Obj) and isinstance(c, tuple) and c[0] == 'class':
                     return self.repo.is_subclass(o.cls, c[1])
                 raise Unsupported('isinstance(%r, %r)' % (o, c))
+            if n == 'type' and len(args) == 1 and isinstance(args[0], Obj):
+                return ('class', args[0].cls)
+            if n == 'issubclass' and all(isinstance(a, tuple) and a and a[0] == 'class' for a in args):
+                return self.repo.is_subclass(args[0][1], args[1][1])
+            if n == 'enumerate' and len(args) == 1 and isinstance(args[0], Obj):
+                return Opaque('enumerate(%s)' % args[0].name)
             if n in ('bool', 'len', 'any', 'all', 'list', 'tuple'):
                 if n == 'bool':
                     return self._truth(args[0])
@@ -432,6 +465,16 @@ class FDE:
             raise Unsupported('call of %s (unresolved)' % n)
         if isinstance(f, ast.Attribute):
             target = self._ev(f, env, fi)
+            if isinstance(target, tuple) and target and target[0] == 'builtinmethod':
+                return Opaque('%s.%s()' % (target[1].name, target[2]))
+            if isinstance(target, tuple) and target and target[0] == 'objdictmethod':
+                if target[2] == 'update' and args and isinstance(args[0], ObjDict):
+                    self.effects.append(('call', '__dict__.update', target[1].obj, (args[0].obj,), ()))
+                    return None
+                raise Unsupported('__dict__.%s' % target[2])
+            if isinstance(target, Bound) and target.fi.is_classmethod:
+                if target.name not in self.stubs:
+                    return self._invoke(target.fi, [('class', target.recv.cls)] + args, kwargs)
             if isinstance(target, Bound):
                 name = target.name
                 q = target.fi.qualname
